@@ -52,6 +52,7 @@ func GenLemma(prog *Prog, sp *ssa.Package, l *Lemma, qn string) *VC {
 	vars := map[string]Val{}
 	lk := func(name string) (Val, bool) { v, ok := vars[name]; return v, ok }
 	ctx := &SpecCtx{vc: vc, lookup: lk, st: st, oldSt: entry, oldLookup: lk, pkg: sp.Pkg}
+	vc.entryCtx = &SpecCtx{vc: vc, lookup: lk, st: entry, oldSt: entry, oldLookup: lk, pkg: sp.Pkg}
 	if l.E != nil {
 		// plain lemma: a closed formula
 		t, err := ctx.EvalBool(l.E)
@@ -86,7 +87,7 @@ func GenLemma(prog *Prog, sp *ssa.Package, l *Lemma, qn string) *VC {
 	}
 	for _, s := range l.Steps {
 		ctx.st = node.st
-		if s.Kind == "call" {
+		if s.Kind == "call" || s.Kind == "exec" {
 			addCover()
 		}
 		switch s.Kind {
@@ -106,7 +107,7 @@ func GenLemma(prog *Prog, sp *ssa.Package, l *Lemma, qn string) *VC {
 			nconc++
 			vc.oblige("lemma", "conclude"+labelOr(s.Label, nconc-1), s.Text, "", "true", t)
 			vc.assume(t)
-		case "call":
+		case "call", "exec":
 			pkgPath := sp.Pkg.Path()
 			name := s.Callee
 			if i := strings.Index(name, ":"); i >= 0 {
@@ -119,7 +120,7 @@ func GenLemma(prog *Prog, sp *ssa.Package, l *Lemma, qn string) *VC {
 				continue
 			}
 			fc := prog.ContractFor(callee)
-			if fc == nil {
+			if fc == nil && s.Kind == "call" {
 				vc.errorf("lemma %s: callee %s has no contract", l.Name, s.Callee)
 				continue
 			}
@@ -146,7 +147,21 @@ func GenLemma(prog *Prog, sp *ssa.Package, l *Lemma, qn string) *VC {
 				vc.errorf("lemma %s call %s: %d args for %d params", l.Name, s.Callee, len(args), len(callee.Params))
 				continue
 			}
-			results := vc.lemmaCall(node, callee, fc, args, s)
+			var results []Val
+			if s.Kind == "exec" {
+				// the body itself is executed symbolically (used for relational laws such as comparator axioms)
+				node.env = map[ssa.Value]Val{}
+				saveNS := vc.noSafety
+				vc.noSafety = true
+				rs, ok := vc.inlineBody(0, nil, node, callee, nil, args, "x."+callee.Name(), "")
+				vc.noSafety = saveNS
+				if !ok {
+					continue
+				}
+				results = rs
+			} else {
+				results = vc.lemmaCall(node, callee, fc, args, s)
+			}
 			for i, rn := range s.Results {
 				if i < len(results) && rn != "_" {
 					vars[rn] = results[i]
